@@ -2162,7 +2162,11 @@ class Recipe:
         # if solute not in destination.contents:
         #     raise ValueError(f"Container does not contain {solute.name}.")
 
-        ratio, *_ = Unit.calculate_concentration_ratio(solute, concentration, solvent)
+        try:
+            ratio, *_ = Unit.calculate_concentration_ratio(solute, concentration, solvent)
+        except ZeroDivisionError:
+            # the concentration of the pure solute: reachable (by adding nothing) if the destination holds nothing else
+            ratio = float('inf')
         if ratio <= 0:
             raise ValueError("Concentration is impossible to create.")
 
